@@ -227,7 +227,14 @@ func streamEngine(t *testing.T, o *Out, p EngProfile) {
 		}
 		switch {
 		case p.Faults:
+			// faults raised INSIDE the storage layer: one stored row at a time is made undecodable
+			// (its shard_id is overwritten with text that is no UUID), so that every query that
+			// FETCHES the row fails while it is scanned - a driver error during row iteration, below
+			// the Manager/Traverser interface where the k-th-call faults are injected. The row still
+			// matches every predicate, so the fault-free answer is the one given before the damage.
+			extraCol = env.poisonedRuns(c, r)
 			base := emit(c, "g", false)
+			extraCol = ""
 			max := int(base)
 			if max > 14 {
 				max = 14
